@@ -87,3 +87,24 @@ Theorem C09_ws_unencodable_clean : forall progs plan readers c t l w ops c' e,
   xs_step false (length progs) c t = Some (c', e) -> WsClient_Proofs.is_write e = false.
 Proof. exact WsClient_Proofs.encode_error_writes_nothing. Qed.
 Print Assumptions C09_ws_unencodable_clean.
+
+(* ---- the pooled send buffer (model/SendBuf.v): whatever an earlier Send left in a recycled buffer — the
+   flushed part of a message that then failed to encode included — never reaches the connection: every
+   Write carries the encoding of a message whose Encode succeeded, for every pool behaviour and interleaving ---- *)
+From FF Require Import model.Show model.Pool model.SendBuf.
+From Coq Require Import String.
+Local Open Scope string_scope.
+From FF Require proofs.SendBuf_Proofs.
+
+Theorem C09_pooled_buffer_no_unencodable : forall (n : nat) (sch : list sitem) (t : nat) (b : bytes),
+  In (t, b) (ss_wire (sc_st (sexec send_repaired (sinit n) sch))) -> exists q : sreq, q_ok q = true /\ b = q_written q.
+Proof. exact SendBuf_Proofs.sendbuf_no_unencodable. Qed.
+Print Assumptions C09_pooled_buffer_no_unencodable.
+
+(* regression witness: without the Reset after Get the half-encoded bytes of a failed message are sent in
+   front of the next one *)
+Theorem C09_pooled_buffer_noreset_refuted :
+  ss_wire (sc_st (sexec SendBuf_Proofs.noreset (sinit 1) SendBuf_Proofs.noreset_sched)) = [(0%nat, str "half-encodedgood")]
+  /\ spec_wire (repeat T_idle 1) SendBuf_Proofs.noreset_sched = [(0%nat, str "good")].
+Proof. exact SendBuf_Proofs.sendbuf_noreset_refuted. Qed.
+Print Assumptions C09_pooled_buffer_noreset_refuted.
